@@ -2134,6 +2134,9 @@ insert_list:
             if (u->flags & VCPU_ENABLE_PASSIVE_WORK_STEALING) {
                 thread* th;
                 if ((th = ws_scan_standbyq(vcpu, u)) || (th = ws_scan_runq(vcpu, u))) {
+                    // our own runq may be scanned by stealers as soon as vcpu_list_lock is
+                    // released, and is only taken here, never while waiting for that lock
+                    AtomicRunQ arq;
                     vcpu->idle_worker->insert_list_tail(th);
                     return true;
                 }
@@ -2146,9 +2149,14 @@ insert_list:
         RunQ rq;
         auto last_idle = now;
         auto vcpu = rq.current->get_vcpu();
+        // The runq lock must be released before try_work_stealing(): an idler that keeps its
+        // own (foreground) lock while it waits for vcpu_list_lock dead-locks with the idler
+        // that holds vcpu_list_lock and waits for that foreground lock in ws_scan_runq().
+        // (A temporary in the loop condition would live until the end of the condition.)
+        auto runq_single = [&]() { return AtomicRunQ(rq).single(); };
         while (vcpu->state != states::DONE) {
             while (unlikely(resume_threads_inlined(vcpu, rq) > 0) ||
-                   likely(!AtomicRunQ(rq).single())   ||
+                   likely(!runq_single())   ||
                    likely(try_work_stealing(vcpu))) {
                 {
                     // Test and switch in one critical section: a passive work stealer
